@@ -1231,6 +1231,17 @@ func main() {
 		}
 	}
 
+	// ------------------------------------------------------------------ the real migration 13.2 -> 13.3
+	{
+		var srcs []string
+		for _, g := range good {
+			if len(g.src) < 120 {
+				srcs = append(srcs, g.src)
+			}
+		}
+		migrationStream(o, res, r.Fork("migrate"), srcs, addRef)
+	}
+
 	refSh.Flush()
 	res.Write(o)
 }
